@@ -41,8 +41,8 @@ POOL = {
     'number': [0.0, 1.5, -2.0, 3, 1e15],
     'string': ['', 'a', '10'],
     'datetime': [datetime.datetime(2020, 1, 1), datetime.date(2020, 1, 2), datetime.datetime(2020, 1, 1, 5, 0, 0, 250000, tzinfo=TZ5)],
-    'array': [[], [2.0], [1.0, 1.0], ['a', 2.0]],
-    'object': [{}, {'a': 1.0}, {'a': 1.0, 'b': [1.0]}],
+    'array': [[], [2.0], [1.0, 1.0], ['a', 2.0], gv._deep(250, 1.0, list), gv._deep(250, 2.0, list)],     # (two of them nested 250 levels deep)
+    'object': [{}, {'a': 1.0}, {'a': 1.0, 'b': [1.0]}, gv._deep(300, 'x', dict)],
     'function': [gv.host_fn_a, gv.host_fn_b, len],
     'regex': list(gv.REGEXES),
 }
@@ -469,6 +469,84 @@ def check_numeric(op, l, r):
     return want
 
 
+# ---- chains evaluated whole and step by step ---------------------------------------------------------------------------------------------
+CHAIN_VALUES = {'s': 'v=', 'e': '', 'n': 1.0, 'h': 2.5, 'z': None, 't': True, 'arr': [1.0, 'a'], 'obj': {'k': 1.0}, 'd': datetime.datetime(2020, 1, 2, 3, 4, 5),
+                'nanarr': '$nan-array', 'infobj': '$inf-object', 'cyc': '$cyclic-array', 'big': 1e308, 'i': 3}
+CHAIN_LITERALS = ["'v='", "';'", "''", '1', '0.5', "'x y'", 'null']
+
+
+def _chain_globals(log):
+    g = {}
+    for k, v in CHAIN_VALUES.items():
+        if v == '$nan-array':
+            v = [1.0, float('nan')]
+        elif v == '$inf-object':
+            v = {'a': float('inf')}
+        elif v == '$cyclic-array':
+            v = [1.0]
+            v.append(v)
+        elif isinstance(v, (list, dict)):
+            v = copy.deepcopy(v)
+        g[k] = v
+    g['probe'] = probe_impl(log)
+    return g
+
+
+def _same_nan(a, b):
+    if isinstance(a, float) and isinstance(b, float) and math.isnan(a) and math.isnan(b):
+        return True
+    return type(a) is type(b) and a == b if not isinstance(a, (list, dict)) else a is b or a == b
+
+
+def check_chain(terms, ops):
+    """t0 op t1 op t2 ... (operators of one precedence level, so the chain groups to the left) evaluated as ONE expression must give the value, and call
+    the probes in the order, of evaluating it one operator at a time with the intermediate result held in a variable."""
+    text = terms[0] + ''.join(' %s %s' % (o, t) for o, t in zip(ops, terms[1:]))
+    d = {'kind': 'chain', 'terms': terms, 'ops': ops, 'text': text}
+    for how in ('expression', 'script'):
+        wlog = []
+        g = _chain_globals(wlog)
+        try:
+            if how == 'expression':
+                whole = impl.bs.evaluate_expression(impl.bs.parse_expression(text), {'globals': g})
+            else:
+                whole = impl.bs.execute_script(impl.bs.parse_script('return ' + text), {'globals': g})
+        except Exception as e:  # pylint: disable=broad-except
+            raise Violation('%r (%s) raised %s' % (text, how, type(e).__name__), d, 'chain-raises') from e
+        slog = []
+        g2 = _chain_globals(slog)
+        acc = impl.bs.evaluate_expression(impl.bs.parse_expression(terms[0]), {'globals': g2})
+        for o, t in zip(ops, terms[1:]):
+            g2['acc'] = acc
+            acc = impl.bs.evaluate_expression(impl.bs.parse_expression('acc %s %s' % (o, t)), {'globals': g2})
+        if not _same_nan(whole, acc):
+            raise Violation('%r (%s) = %r, evaluating it one operator at a time gives %r' % (text, how, whole, acc), d, 'chain-value')
+        if wlog != slog:
+            raise Violation('%r (%s) calls %r, evaluating it one operator at a time calls %r' % (text, how, wlog, slog), d, 'chain-evaluation-order')
+    return whole
+
+
+def gen_chain(rnd):
+    n = rnd.randint(3, 5)
+    level = rnd.choice([['+', '-'], ['+'], ['+'], ['*', '/'], ['+', '-']])
+    names = sorted(CHAIN_VALUES)
+    terms = []
+    for i in range(n):
+        k = rnd.random()
+        if i == 0 and k < 0.5:
+            t = rnd.choice(CHAIN_LITERALS[:3])          # chains that start with a string literal: string building
+        elif k < 0.55:
+            t = rnd.choice(names)
+        elif k < 0.75:
+            t = rnd.choice(CHAIN_LITERALS)
+        elif k < 0.9:
+            t = "probe('p%d', %s)" % (i, rnd.choice(names + CHAIN_LITERALS))
+        else:
+            t = '(%s + %s)' % (rnd.choice(names), rnd.choice(names + CHAIN_LITERALS))
+        terms.append(t)
+    return terms, [rnd.choice(level) for _ in range(n - 1)]
+
+
 def plan(tier):
     parts = 8 if tier == 'quick' else 16
     specs = [{'kind': 'matrix', 'part': i, 'parts': parts} for i in range(parts)]
@@ -476,6 +554,7 @@ def plan(tier):
     specs += [{'kind': 'trees', 'n': 6000 if tier == 'quick' else 60000, 'k': i} for i in range(k)]
     specs += [{'kind': 'dtarith', 'n': 3000 if tier == 'quick' else 40000, 'k': i} for i in range(1 if tier == 'quick' else 4)]
     specs += [{'kind': 'numeric'}]
+    specs += [{'kind': 'chains', 'n': 4000 if tier == 'quick' else 60000, 'k': i} for i in range(1 if tier == 'quick' else 4)]
     specs += [{'kind': 'aliases', 'n': 4000 if tier == 'quick' else 30000, 'k': i} for i in range(2 if tier == 'quick' else 8)]
     return specs
 
@@ -511,7 +590,7 @@ def run_shard(ctx, spec):
             ctx.case(digest('m%s,%d,%s' % (op, i, j)), tx != ty or (expected != 'violation' and expected[1] is None),
                      ['matrix:%s' % op, 'cell-null' if expected != 'violation' and expected[1] is None else 'cell-value'],
                      {'text': text, 'x': x, 'y': g.get('y')})
-        ctx.exhaustive['operator x 27 x 27 operand matrix'] = True
+        ctx.exhaustive['operator x %d x %d operand matrix' % (len(MATRIX), len(MATRIX))] = True
         return
     if spec['kind'] == 'numeric':
         for op in ('+', '-', '*', '/', '%', '**'):
@@ -529,6 +608,17 @@ def run_shard(ctx, spec):
                     ctx.case(digest(['numeric', op, repr(l), repr(r)]), not finite or want is None or (isinstance(want, float) and not math.isfinite(want)),
                              ['numeric:' + op, 'finite-operands' if finite else 'non-finite-operand'], {'text': 'x %s y' % op, 'x': l, 'y': r})
         ctx.exhaustive['6 arithmetic operators x %d x %d special numbers' % (len(SPECIAL_NUMBERS), len(SPECIAL_NUMBERS))] = True
+        return
+    if spec['kind'] == 'chains':
+        def cprop(seed):
+            rnd = random.Random(seed)
+            terms, ops = gen_chain(rnd)
+            check_chain(terms, ops)
+            text = ' '.join(terms)
+            ctx.case(digest([terms, ops]), 'probe' in text or any(x in text for x in ('nanarr', 'infobj', 'cyc')),
+                     ['chain', 'len=%d' % len(terms), 'unstringifiable-operand' if any(x in text for x in ('nanarr', 'infobj', 'cyc')) else 'plain-operands',
+                      'starts-with-string-literal' if terms[0][0] == "'" else 'starts-otherwise'], {'terms': terms, 'ops': ops})
+        run_hypothesis(ctx, cprop, [st.integers(0, 2 ** 40)], spec['n'], salt=70 + spec['k'])
         return
     if spec['kind'] == 'trees':
         def prop(seed, size):
@@ -675,6 +765,9 @@ def _parse_to_tree(m):
 def replay(detail):
     if detail.get('kind') == 'callee':
         check_callee_lookup(detail['form'], detail['route'])
+        return
+    if detail.get('kind') == 'chain':
+        check_chain(detail['terms'], detail['ops'])
         return
     if detail.get('kind') == 'numeric':
         check_numeric(detail['op'], dec(detail['l']), dec(detail['r']))
